@@ -1,5 +1,6 @@
 import Zog.Props.FactsOK
 import Zog.Valid
+import Zog.ValidAll
 
 /-!
 # C01 — success means valid: no issues implies every declared constraint holds
@@ -30,6 +31,27 @@ theorem success_means_valid (env : Env) (m : Mode) (s : Schema) (hp : s.postFree
     Valid env m s tag [] v d := by
   rw [engine_is_spec] at h
   exact success_means_valid_spec env m s hp hw tag v d h
+
+/-- **C01 for EVERY well-formed schema — PostTransforms included.** If the execution reports no
+    issue then, at every depth, every declared test held on the value its node had when the tests
+    ran (`ValidU`: a node's own PostTransforms run after its tests and may rewrite the value; those
+    of its children have already run), every Required / NotNil node had a present value (or a
+    Default), the only exemptions being absent optional nodes and nodes holding their Catch value.
+    Proved for the reference semantics by "clean runs are local" (Zog/Clean.lean) — on a successful
+    run no PostTransform gate is ever closed — and carried to the mechanism model with the
+    `CanCatch`/`Exit` flags on shared contexts by the refinement, for every field visit order. -/
+theorem success_means_valid_all (env : Env) (m : Mode) (s : Schema) (hw : s.WF)
+    (tag : Option String) (v : Val) (d : DVal) (h : (Engine.run env Gen.facts m s tag v d).2.sink = []) :
+    ValidU env m s tag [] v d := by
+  rw [engine_is_spec] at h
+  exact validU_of_clean env m s hw tag [] v d h
+
+/-- what `ValidU` says at a primitive node that has PostTransforms: the tests hold on the value the
+    node had BEFORE its PostTransforms ran (`primBody`), unless the node was absent and optional or
+    holds its Catch value -/
+theorem validU_at_prim (env : Env) (m : Mode) (p : Prim) (tag : Option String) (path : List String) (v : Val) (d : DVal) :
+    ValidU env m (.prim p) tag path v d ↔ PrimSat m p v d (primBody env m p path v d {}).1 := by
+  simp [ValidU]
 
 /-- **Node law (all schemas, also with PostTransforms).** If visiting a primitive node added no
     issue, the node is valid: a Required node had a present value (or a default), and every test
